@@ -905,15 +905,15 @@ def fam_kernels(g, prop, count, types):
                 t = r.choice(["N", "N", "T", "C", "n", "t", "c"])
                 notr = t in "Nn"
                 lenx, leny = (n2, m2) if notr else (m2, n2)
-                incx = r.choice([1, 2, -1]) if notr else 1
-                incy = 1 if notr else r.choice([1, 2, -1])
+                incx = r.choice([1, 2, -1, -2]) if notr else 1
+                incy = 1 if notr else r.choice([1, 2, -1, -2])
                 al = (float(r.choice([0, 1, -1, 2, 0.5])), float(r.choice([0, 0, 1])) if cplx else 0.0)
                 be = (float(r.choice([0, 1, -1, 2, 0.5])), float(r.choice([0, 0, -1])) if cplx else 0.0)
                 y = small_vec(g, leny, cplx)
                 if be == (0.0, 0.0) and r.random() < 0.5:
                     y = [(float("nan"), float("nan"))] * leny        # beta = 0: y need not be set on input
-                # negative increments: the vector is traversed backwards (BLAS convention): keep the harness simple, use |inc|
-                lines += [vec_line("vecx", small_vec(g, lenx, cplx), abs(incx), cplx), vec_line("vecy", y, abs(incy), cplx)]
+                # negative increments: the vector is traversed backwards (BLAS convention); the harness stores it that way
+                lines += [vec_line("vecx", small_vec(g, lenx, cplx), incx, cplx), vec_line("vecy", y, incy, cplx)]
                 lines.append("call gemv %s %s %s" % (t, hx(al[0]) + ((" " + hx(al[1])) if cplx else ""), hx(be[0]) + ((" " + hx(be[1])) if cplx else "")))
             for _ in range(2):
                 t = r.choice(["N", "T", "C"])
